@@ -236,21 +236,28 @@ type pipeTxn struct {
 	Rewrote   map[string]bool // its effective recipient set differs from {itself}
 	Effective map[string]bool // every address a target saw
 	Calls     []call
-	// Entangled: client-supplied recipients that share an effective recipient
-	// with a DIFFERENT client-supplied address of the same transaction (N-to-1,
-	// e.g. two spellings of one alias), or whose effective recipient is itself
-	// another client-supplied address. The statement speaks of 1-to-N rewrites;
-	// for these the missing-failure clause is counted, not judged (NOTES.md).
+	// Entangled: client-supplied recipients one of whose effective recipients
+	// was handed to a target on behalf of a DIFFERENT client-supplied address of
+	// the same transaction too (genuine N-to-1 collision; witness only).
 	Entangled map[string]bool
-	// FailedClean: accepted AND an effective recipient that belongs to this
-	// client-supplied address alone failed (the judged part of Failed).
+	// FailedClean: accepted AND a failing effective recipient is attributable
+	// to this client-supplied address alone (the judged part of Failed).
 	FailedClean map[string]bool
+	// FailedNested: failing only through a nested pipeline in a chain
+	// constellation (double translation); judged only with JudgeNested.
+	FailedNested map[string]bool
+	// Chained: the client-supplied address is itself a possible rewrite output.
+	Chained     map[string]bool
+	JudgeNested bool
+	// Excused: keys that may be the nested pipeline's own client address in a
+	// collision / nested-chain transaction (not judged as foreign; see runPipe).
+	Excused map[string]bool
 }
 
 // judgePipe applies the second sentence of the statement: every key is an
 // address the client supplied; every accepted client-supplied recipient whose
 // delivery failed has a failure under its own address.
-func judgePipe(t *pipeTxn) (out []finding, unjudgedMissing int) {
+func judgePipe(t *pipeTxn) (out []finding, unjudgedCollision, unjudgedNested, excusedKeys int) {
 	supplied := map[string]bool{}
 	for _, s := range t.Supplied {
 		supplied[s] = true
@@ -272,6 +279,10 @@ func judgePipe(t *pipeTxn) (out []finding, unjudgedMissing int) {
 		if supplied[k] {
 			continue
 		}
+		if t.Excused[k] {
+			excusedKeys++
+			continue
+		}
 		cause := "other"
 		if t.Effective[k] {
 			cause = "rewritten-address"
@@ -290,18 +301,29 @@ func judgePipe(t *pipeTxn) (out []finding, unjudgedMissing int) {
 		if !t.Accepted[a] || failN[a] > 0 {
 			continue
 		}
-		if !t.FailedClean[a] {
-			unjudgedMissing++
-			continue
-		}
 		cls := "unrewritten"
-		if t.Rewrote[a] {
+		switch {
+		case t.Chained[a]:
+			cls = "chained-alias"
+		case t.Rewrote[a]:
 			cls = "rewritten"
+		}
+		if !t.FailedClean[a] {
+			if t.FailedNested[a] {
+				if !t.JudgeNested {
+					unjudgedNested++
+					continue
+				}
+				cls = "nested-double-translation"
+			} else {
+				unjudgedCollision++
+				continue
+			}
 		}
 		out = append(out, finding{
 			Sig:  "pipeline/missing-failure/" + cls,
 			What: fmt.Sprintf("client-supplied recipient %q was accepted, delivery of (one of) its effective recipient(s) failed at a target, but no failure was reported under %q", a, a),
 		})
 	}
-	return out, unjudgedMissing
+	return out, unjudgedCollision, unjudgedNested, excusedKeys
 }
